@@ -34,7 +34,8 @@ META = dict(
                   'Linux page cache: completed write/ftruncate/memmap stores are visible to a later reader in program order',
                   'numpy.load / numpy.lib.format as the reader'],
     assumptions=['a kill inside one write(2)/memcpy into the memmap, and power loss, are below the step granularity'],
-    partial=['torn single writes and loss of the page cache are not modelled'],
+    partial=['torn single writes and loss of the page cache are not modelled',
+             'a file reopened with ANOTHER batch size than it was written with is outside the Lean model (direct oracle only: check_rebatch)'],
 )
 
 DTYPES = ['f8', 'i4', 'u1', 'c16']
@@ -670,9 +671,90 @@ def check_pool(ctx):
         shutil.rmtree(tmp, ignore_errors=True)
 
 
+def check_rebatch(ctx):
+    """a file written with one batch size and reopened with ANOTHER one (the file length need not be a multiple of the new batch
+    size: trailing rows that do not fill a batch).  Outside the Lean model (its stores keep one batch size); direct oracle only:
+    every operation is either refused and changes nothing, or accepted, and then every exposed batch reads back as the in-memory
+    sequence says (the batch just written as written, every other batch unchanged), also after flush + numpy.load."""
+    rng = ctx.rng
+    tmp = tempfile.mkdtemp(prefix='c06b-')
+    try:
+        for it in range(ctx.budget(40, 400)):
+            b1, b2 = rng.sample([1, 2, 3, 4, 5, 7], 2)
+            k = rng.randint(1, 5)
+            if it < 6:
+                b1, k, b2 = [(7, 5, 10), (3, 3, 2), (2, 3, 4), (5, 1, 3), (3, 2, 4), (4, 3, 5)][it]
+            path = os.path.join(tmp, 'r%d.npy' % it)
+            st = NpyStore(path, b1)
+            for i in range(k):
+                st[i] = mk_batch(i + 1, b1, (), 'f8')
+            st.close()
+            rows = [float(i + 1) for i in range(k) for _ in range(b1)]
+            st = NpyStore(path, b2)
+            exp = [rows[i * b2:(i + 1) * b2] for i in range(len(rows) // b2)]
+            ops = []
+            case = dict(kind='rebatch', b_written=b1, batches_written=k, b_reopened=b2, ops=ops)
+            ctx.case(case, len(rows) % b2 != 0)
+            ctx.count('rebatch.tail_rows', len(rows) % b2)
+            tok = 50
+
+            def observe(what):
+                if len(st) != len(exp):
+                    ctx.fail_input(dict(case), '%s: the store reports %d batches, the in-memory sequence has %d' % (what, len(st), len(exp)), len(exp), len(st))
+                    return False
+                for i in range(len(exp)):
+                    got = np.asarray(st[i]).tolist()
+                    if got != exp[i]:
+                        ctx.fail_input(dict(case), '%s: batch %d reads back as %s, the in-memory sequence holds %s' % (what, i, got, exp[i]), exp[i], got)
+                        return False
+                return True
+            if not observe('after reopening with batch size %d' % b2):
+                continue
+            ok = True
+            for _ in range(rng.randint(1, 4)):
+                kind = rng.choice(['append', 'append', 'overwrite', 'del', 'flush', 'reopen'])
+                tok += 1
+                new = [float(tok)] * b2
+                try:
+                    if kind == 'append':
+                        ops.append(['set', len(exp), tok])
+                        st[len(exp)] = np.array(new)
+                        exp = exp + [new]
+                    elif kind == 'overwrite' and exp:
+                        i = rng.randrange(len(exp))
+                        ops.append(['set', i, tok])
+                        st[i] = np.array(new)
+                        exp = exp[:i] + [new] + exp[i + 1:]
+                    elif kind == 'del' and exp:
+                        ops.append(['del', len(exp) - 1])
+                        del st[len(exp) - 1]
+                        exp = exp[:-1]
+                    elif kind == 'flush':
+                        ops.append(['flush'])
+                        st.flush()
+                        got = np.load(path).tolist()
+                        flat = [v for bt in exp for v in bt]
+                        if got[:len(flat)] != flat:
+                            ctx.fail_input(dict(case), 'after flush numpy.load starts with %s, the in-memory sequence is %s' % (got[:len(flat)], flat), flat, got)
+                            ok = False
+                    elif kind == 'reopen':
+                        ops.append(['reopen', len(exp)])
+                        st.close()
+                        st = NpyStore(path, b2, n_batches=len(exp))
+                except (IndexError, ValueError) as e:
+                    ops[-1].append('refused:' + type(e).__name__)            # refused: nothing may have changed
+                    ctx.count('rebatch.refused', kind)
+                if not ok or not observe('after %s' % ops[-1] if ops else 'start'):
+                    break
+            st.close()
+    finally:
+        shutil.rmtree(tmp, ignore_errors=True)
+
+
 def run(ctx):
     process(ctx, gen_cases(ctx, ctx.budget(220, 1500)), ctx.budget(0.34, 1.0))
     check_pool(ctx)
+    check_rebatch(ctx)
 
 
 def search(ctx):
